@@ -447,7 +447,10 @@ ares_status_t ares_uri_set_host(ares_uri_t *uri, const char *host)
   if (ll_scope != NULL) {
     *ll_scope = 0;
     ll_scope++;
-    if (!ares_str_isalnum(ll_scope)) {
+    /* Interface names like br-lan, eth0.100 or veth_1 are common, allow the
+     * unreserved characters, which need no escaping in the authority */
+    if (!ares_uri_str_isvalid(ll_scope, SIZE_MAX, ares_uri_chis_unreserved) ||
+        ares_strlen(ll_scope) == 0) {
       return ARES_EBADNAME;
     }
   }
